@@ -486,6 +486,9 @@ impl ArchiveFooter {
             })?;
             tmp.insert(k, v);
         }
+        // Canonical entry order (bincode encodes both map types identically)
+        #[cfg(mla_verif)]
+        let tmp: std::collections::BTreeMap<&String, &FileInfo> = tmp.into_iter().collect();
 
         if bincode::options()
             .with_limit(BINCODE_MAX_DESERIALIZE)
